@@ -122,7 +122,39 @@ func isLenOf(v, of ssa.Value) bool {
 		return false
 	}
 	b, ok := c.Call.Value.(*ssa.Builtin)
-	return ok && b.Name() == "len" && len(c.Call.Args) == 1 && c.Call.Args[0] == of
+	return ok && b.Name() == "len" && len(c.Call.Args) == 1 && keyLike(c.Call.Args[0], of)
+}
+
+// keyLike: v is the map key itself or its case-folded form (ToLower keeps the length and the
+// prefix relation among folded strings), possibly chosen by a configuration flag (phi).
+func keyLike(v, key ssa.Value) bool {
+	seen := map[ssa.Value]bool{}
+	var rec func(v ssa.Value) bool
+	rec = func(v ssa.Value) bool {
+		if v == key {
+			return true
+		}
+		if v == nil || seen[v] {
+			return false
+		}
+		seen[v] = true
+		switch x := v.(type) {
+		case *ssa.Phi:
+			for _, e := range x.Edges {
+				if !rec(e) {
+					return false
+				}
+			}
+			return len(x.Edges) > 0
+		case *ssa.Call:
+			n := calleeName(&x.Call)
+			if strings.Contains(n, "utils/v2.ToLower") || n == "strings.ToLower" {
+				return rec(x.Call.Args[0])
+			}
+		}
+		return false
+	}
+	return rec(v)
 }
 
 func runC08(r *Run) {
@@ -319,7 +351,7 @@ func runC08(r *Run) {
 		// candidates are prefixes of one loop-invariant string
 		hp := false
 		for _, c := range callsMatching(f, false, nameIs("strings.HasPrefix")) {
-			if !mr.Loop[c.Block()] || c.Common.Args[1] != mr.Key {
+			if !mr.Loop[c.Block()] || !keyLike(c.Common.Args[1], mr.Key) {
 				continue
 			}
 			x := c.Common.Args[0]
@@ -440,7 +472,7 @@ func runC08(r *Run) {
 					if _, ok := stripValue(br.Info.Root).(*ssa.Index); ok {
 						if s, ok := br.slotFor(token.EQL); ok {
 							cut[edge{br.If.Block(), s}] = true
-							if stripValue(br.Info.Root).(*ssa.Index).X != key {
+							if !keyLike(stripValue(br.Info.Root).(*ssa.Index).X, key) {
 								kind1++
 							}
 						}
@@ -671,5 +703,40 @@ func runC08(r *Run) {
 				"the prefix handed to the recursive call is not the key the sub-app was registered under: a grandchild mounted at /api/sub/third is registered under /sub/third, so its error handler is chosen for foreign paths and (depending on map order) not for its own")
 		}
 		r.atLeast("recursive calls", n, 1)
+	})
+
+	r.rule("R7", "the mounted handler is chosen the way routes are matched: when registration folds patterns to lower case (unless CaseSensitive), the candidate test folds path and prefix too (E5)", func() {
+		reg := r.Fn("", "(*App).register")
+		folds := false
+		withinFunction(reg, func() {
+			folds = len(callsMatching(reg, false, func(n string) bool { return strings.HasPrefix(n, "github.com/gofiber/utils/v2.ToLower") })) > 0
+		})
+		f := r.Fn("", "(*App).ErrorHandler")
+		if !folds {
+			r.ok("ErrorHandler:case-folding-like-routing", r.fpos(f), "registration does not fold case")
+			return
+		}
+		isFold := func(v ssa.Value) bool {
+			c, ok := v.(*ssa.Call)
+			return ok && (strings.Contains(calleeName(&c.Call), "utils/v2.ToLower") || calleeName(&c.Call) == "strings.ToLower" || strings.HasSuffix(calleeName(&c.Call), "EqualFold"))
+		}
+		n := 0
+		okAll := true
+		withHelpers(func() {
+			for _, c := range callsMatching(f, false, nameIs("strings.HasPrefix")) {
+				n++
+				if dependsOn(c.Common.Args[0], isFold) == nil || dependsOn(c.Common.Args[1], isFold) == nil {
+					okAll = false
+				}
+			}
+		})
+		cs := false
+		for _, br := range branchesIn(f) {
+			if loadOfField(br.Info.Root, "Config.CaseSensitive") {
+				cs = true
+			}
+		}
+		r.check(n > 0 && okAll && cs, "ErrorHandler:case-folding-like-routing", r.fpos(f), "path and mount prefix are folded (under !CaseSensitive) before they are compared",
+			"routes are matched ignoring letter case unless CaseSensitive is set, but the mounted error handler is chosen by an exact prefix comparison: a request to /API/… runs the sub-app's route and has its error delivered to the root application's handler")
 	})
 }
